@@ -10,6 +10,9 @@
 #include "verif.h"
 
 #include <array>
+#include <csetjmp>
+#include <csignal>
+#include <sys/time.h>
 
 using namespace SimTK;
 typedef MultibodyGraphMaker MGM;
@@ -336,7 +339,17 @@ static void judgeError(const Model& m, GenResult& r, Check& c) {
             int nj = 0, mobile = 0; for (auto& j : m.joints) if (j.parent == letter || j.child == letter) { nj++; if (TYPE_DOF[j.type] > 0) mobile++; }
             if (r.kind == E_FREE) ok = nj == 0;
             else if (r.kind == E_DANGLE) ok = nj == 1 && mobile == 1;
-            else ok = true;
+            else {
+                // "terminal massless body": X can only have become a mobile terminal body through a joint with mobilities or an added
+                // free joint (must-be-base, or not reachable from Ground over tree-eligible input joints).  A massless body whose joints
+                // are all welds and which hangs on the Ground component may end a branch (documented), so an error naming it is unjustified.
+                bool reachable = false;
+                { std::vector<int> seen(1, 0); bool ch = true;
+                  auto has = [&](int l) { return std::find(seen.begin(), seen.end(), l) != seen.end(); };
+                  while (ch) { ch = false; for (auto& j : m.joints) { if (j.loop) continue; if (has(j.parent) != has(j.child)) { seen.push_back(has(j.parent) ? j.child : j.parent); ch = true; } } }
+                  reachable = has(letter); }
+                ok = mobile > 0 || b.base || !reachable;
+            }
         }
     }
     CK(ok, "error/unjustified", "generateGraph() threw '" + r.msg + "' but the condition it states does not hold for a massless input body");
@@ -350,13 +363,16 @@ static uint64_t outcomeHash(const Model& m, const GenResult& r, const Check& c) 
 
 // ---------------------------------------------------------------- white-box canonical state (E2)
 struct Canon { std::string main, ground; };
+// Text form (for messages and replay).  `ground` holds everything that depends on Ground's slave list (the list itself,
+// the names "#G_slave_<k>" of Ground's slaves and the fragment counts); `main` holds the rest.
 static Canon canon(const MGM& g) {
     std::ostringstream o, q;
     o << "weld=" << g.weldTypeName << " free=" << g.freeTypeName << "\n";
     for (size_t i = 0; i < g.jointTypes.size(); ++i) o << "type " << i << " " << g.jointTypes[i].name << " " << g.jointTypes[i].numMobilities << " " << g.jointTypes[i].haveGoodLoopJointAvailable << " " << (intptr_t)g.jointTypes[i].userRef << "\n";
     for (size_t i = 0; i < g.bodies.size(); ++i) {
         const MGM::Body& b = g.bodies[i];
-        o << "body " << i << " " << b.name << " m=" << b.mass << " base=" << b.mustBeBaseBody << " ref=" << (intptr_t)b.userRef << " lvl=" << b.level << " mob=" << b.mobilizer << " master=" << b.master << " c=[";
+        if (b.master == 0) { o << "body " << i << " #G_slave_*"; q << " name" << i << "=" << b.name; } else o << "body " << i << " " << b.name;
+        o << " m=" << b.mass << " base=" << b.mustBeBaseBody << " ref=" << (intptr_t)b.userRef << " lvl=" << b.level << " mob=" << b.mobilizer << " master=" << b.master << " c=[";
         for (int j : b.jointsAsChild) o << j << ","; o << "] p=["; for (int j : b.jointsAsParent) o << j << ","; o << "]";
         std::ostringstream& sl = i == 0 ? q : o;
         sl << " slaves=["; for (int s : b.slaves) sl << s << ","; sl << "]";
@@ -370,7 +386,7 @@ static Canon canon(const MGM& g) {
         const MGM::Mobilizer& mo = g.mobilizers[i];
         o << "mobilizer " << i << " j=" << mo.joint << " lvl=" << mo.level << " " << mo.inboardBody << ">" << mo.outboardBody << " rev=" << mo.isReversed << " self=" << (mo.mgm == &g) << "\n";
         bool okIdx = mo.mgm == &g && mo.outboardBody >= 0 && mo.outboardBody < (int)g.bodies.size();
-        if (okIdx) { const MGM::Body& ob = g.bodies[mo.outboardBody]; int mn = ob.isSlave() ? ob.master : mo.outboardBody; if (mn >= 0 && mn < (int)g.bodies.size()) q << " frag" << i << "=" << 1 + g.bodies[mn].slaves.size(); }
+        if (okIdx) { const MGM::Body& ob = g.bodies[mo.outboardBody]; int mn = ob.isSlave() ? ob.master : mo.outboardBody; if (mn >= 0 && mn < (int)g.bodies.size()) (mn == 0 ? q : o) << " frag" << i << "=" << 1 + g.bodies[mn].slaves.size() << (mn == 0 ? "" : "\n"); }
     }
     for (size_t i = 0; i < g.constraints.size(); ++i) {
         const MGM::LoopConstraint& lc = g.constraints[i];
@@ -380,6 +396,39 @@ static Canon canon(const MGM& g) {
     for (auto& kv : g.jointName2Num) o << "jn " << kv.first << "=" << kv.second << "\n";
     for (auto& kv : g.jointTypeName2Num) o << "tn " << kv.first << "=" << kv.second << "\n";
     return {o.str(), q.str()};
+}
+// Fast binary form of the same information (used for the comparison; the text form is produced only on a mismatch).
+static void canonBin(const MGM& g, std::string& o, std::string& q) {
+    o.clear(); q.clear();
+    auto pi = [](std::string& s, int64_t v) { s.append((const char*)&v, sizeof v); };
+    auto ps = [&](std::string& s, const std::string& v) { pi(s, (int64_t)v.size()); s += v; };
+    auto pv = [&](std::string& s, const std::vector<int>& v) { pi(s, (int64_t)v.size()); for (int x : v) pi(s, x); };
+    ps(o, g.weldTypeName); ps(o, g.freeTypeName);
+    pi(o, (int64_t)g.jointTypes.size());
+    for (auto& t : g.jointTypes) { ps(o, t.name); pi(o, t.numMobilities); pi(o, t.haveGoodLoopJointAvailable); pi(o, (intptr_t)t.userRef); }
+    pi(o, (int64_t)g.bodies.size());
+    for (size_t i = 0; i < g.bodies.size(); ++i) {
+        const MGM::Body& b = g.bodies[i];
+        if (b.master == 0) ps(q, b.name); else ps(o, b.name);
+        double mass = b.mass; int64_t mb = 0; if (mass == mass) memcpy(&mb, &mass, sizeof mb); else mb = -1;
+        pi(o, mb); pi(o, b.mustBeBaseBody); pi(o, (intptr_t)b.userRef); pi(o, b.level); pi(o, b.mobilizer); pi(o, b.master); pv(o, b.jointsAsChild); pv(o, b.jointsAsParent);
+        pv(i == 0 ? q : o, b.slaves);
+    }
+    pi(o, (int64_t)g.joints.size());
+    for (auto& j : g.joints) { ps(o, j.name); pi(o, j.mustBeLoopJoint); pi(o, (intptr_t)j.userRef); pi(o, j.parentBodyNum); pi(o, j.childBodyNum); pi(o, j.jointTypeNum); pi(o, j.isAddedBaseJoint); pi(o, j.mobilizer); pi(o, j.loopConstraint); }
+    pi(o, (int64_t)g.mobilizers.size());
+    for (auto& mo : g.mobilizers) {
+        pi(o, mo.joint); pi(o, mo.level); pi(o, mo.inboardBody); pi(o, mo.outboardBody); pi(o, mo.isReversed); pi(o, mo.mgm == &g);
+        bool okIdx = mo.mgm == &g && mo.outboardBody >= 0 && mo.outboardBody < (int)g.bodies.size();
+        if (okIdx) { const MGM::Body& ob = g.bodies[mo.outboardBody]; int mn = ob.isSlave() ? ob.master : mo.outboardBody; if (mn >= 0 && mn < (int)g.bodies.size()) pi(mn == 0 ? q : o, 1 + (int64_t)g.bodies[mn].slaves.size()); }
+    }
+    pi(o, (int64_t)g.constraints.size());
+    for (auto& lc : g.constraints) { ps(o, lc.type); pi(o, lc.joint); pi(o, lc.parentBody); pi(o, lc.childBody); pi(o, lc.mgm == &g); }
+    for (auto& kv : g.bodyName2Num) { ps(o, kv.first); pi(o, kv.second); }
+    pi(o, -7);
+    for (auto& kv : g.jointName2Num) { ps(o, kv.first); pi(o, kv.second); }
+    pi(o, -7);
+    for (auto& kv : g.jointTypeName2Num) { ps(o, kv.first); pi(o, kv.second); }
 }
 static std::string firstDiff(const std::string& a, const std::string& b) {
     std::istringstream ia(a), ib(b); std::string la, lb;
@@ -435,8 +484,13 @@ static void runHistory(const std::vector<Op>& ops, std::vector<std::pair<std::st
     MGM h; addTypes(h); h.addBody(S_BODY[0], 0, false, bodyRef(0));
     Model m; bool generated = false;
     auto compare = [&](const MGM& a, const MGM& f, const std::string& phase, size_t opIndex) {
-        Canon ca = canon(a), cf = canon(f);
+        static thread_local std::string am, ag, fm, fg;
+        canonBin(a, am, ag); canonBin(f, fm, fg);
         st.checks += 2;
+        if (am == fm && ag == fg && !verbose) return;
+        Canon ca = canon(a), cf = canon(f);
+        if ((am == fm) != (ca.main == cf.main) || (ag == fg) != (ca.ground == cf.ground))
+            fails.emplace_back("harness/canon-forms-disagree", "binary and text canonical forms disagree");
         if (ca.main != cf.main) fails.emplace_back("history/" + scen + "/" + phase + "-state-differs", "after op " + N2S((int)opIndex) + " (" + opText(ops[opIndex]) + "): " + firstDiff(ca.main, cf.main));
         if (ca.ground != cf.ground) fails.emplace_back("history/clearGraph-keeps-ground-slaves", "after op " + N2S((int)opIndex) + " (" + opText(ops[opIndex]) + "): Ground's slave list / fragment counts differ from a fresh maker: history-built '" + ca.ground + "' fresh '" + cf.ground + "'");
         if (verbose) { printf("   compare[%s] main %s, ground-slaves %s\n", phase.c_str(), ca.main == cf.main ? "equal" : "DIFFER", ca.ground == cf.ground ? "equal" : "DIFFER");
@@ -458,7 +512,8 @@ static void runHistory(const std::vector<Op>& ops, std::vector<std::pair<std::st
             else if (!rh.threw) {
                 compare(h, f, "generated", i);
                 if (structural) {
-                    Check c; checkGraph(m, h, c); st.checks += c.n;
+                    // the structural oracle is evaluated on the fresh maker's graph; the history-built one has just been compared with it
+                    Check c; checkGraph(m, f, c); st.checks += c.n;
                     for (auto& fl : c.fails) fails.push_back(fl);
                     st.lastOutcome = outcomeHash(m, rh, c);
                     if (verbose) for (auto& fl : c.fails) printf("   ORACLE %s: %s\n", fl.first.c_str(), fl.second.c_str());
@@ -498,14 +553,29 @@ struct Local {
     void flush(verif::Run& run) { for (auto& kv : cnt) run.count(kv.first, kv.second); run.transition(transitions); cnt.clear(); transitions = 0; }
 };
 
+// ---------------------------------------------------------------- watchdog: CPU-time limit per enumeration item
+// A defective library can loop forever (e.g. deleteBody() with a stale adjacency index).  Each item of a section runs under a
+// virtual-time limit; on expiry the item is reported as `hang/<section>` and this worker stops (its remaining items are
+// reported as not covered).
+static sigjmp_buf g_wdJmp; static volatile sig_atomic_t g_wdArmed = 0;
+static void wdHandler(int) { if (g_wdArmed) { g_wdArmed = 0; siglongjmp(g_wdJmp, 1); } }
+static void wdArm(double sec) { itimerval t; memset(&t, 0, sizeof t); t.it_value.tv_sec = (long)sec; setitimer(ITIMER_VIRTUAL, &t, nullptr); g_wdArmed = sec > 0; }
+static void guarded(verif::Run& run, const std::string& section, double cpuLimit, const std::function<void()>& body) {
+    if (sigsetjmp(g_wdJmp, 1) == 0) { wdArm(cpuLimit); body(); wdArm(0); }
+    else { wdArm(0);
+        run.violation("hang/" + section, "item " + std::to_string(run.currentItem()) + " of section " + section + " exceeded " + std::to_string((int)cpuLimit) + " s of CPU time (the library did not return)", run.replayHeader());
+        if (!run.replaying()) run.flushAndExitWorker(); }
+}
+
 int main(int argc, char** argv) {
     initNames();
+    { struct sigaction sa; memset(&sa, 0, sizeof sa); sa.sa_handler = wdHandler; sigaction(SIGVTALRM, &sa, nullptr); }
     verif::Run run("C42", argc, argv);
-    run.setDeadline(240, 2400);
+    run.setDeadline(600, 2700);
     const bool thorough = run.thorough();
     run.rule = "graphs: a case = Ground + n bodies (each mass in {0,1} x mustBeBase in {0,1}) + an ORDERED sequence of k joints, each = ordered (parent,child) pair of distinct bodies incl. Ground x type {weld,pin,ball} x mustBeLoop {0,1}; "
-               "all n<=3,k<=3 sequences (quick); thorough adds n=4,k<=3 sequences, n<=3,k=4 sequences and n=4,k=4 multisets in ascending and descending order; cases are distinct by construction; non-trivial = at least one joint or body. "
-               "edits: every model with n<=3,k<=2 (thorough k<=3) x {regenerate twice, delete each joint, delete each body, re-add the last joint, add a body}, each with and without a generate/clear cycle before the edit. "
+               "all n<=3,k<=3 sequences (quick); thorough adds n=4,k<=2 sequences, n=4,k=3 and n=3,k=4 multisets in ascending and in descending kind order, n<=2,k=4 sequences, n=4,k=4 ascending multisets with at most one massless and at most one must-be-base body; cases are distinct by construction; non-trivial = at least one body. "
+               "edits: every model with n<=2,k<=2 or n=3,k<=1 (thorough: n<=3,k<=2) x {regenerate twice, delete each joint, delete each body, re-add the last joint, add a body}, each with and without a generate/clear cycle before the edit. "
                "histories: every operation sequence up to depth d over {addBody, addJoint(any kind), deleteBody, deleteJoint, generate+clear} from an empty maker, replayed on a fresh object";
     run.assumptions = {"joints connect two distinct bodies (documented precondition)", "input edits are made only on a maker without a generated graph (clearGraph first); generateGraph is not called twice without clearGraph",
                        "Ground is never deleted (documented)", "joint types weld (0 dof, loop constraint), pin (1 dof, no loop constraint -> slave split), ball (3 dof, loop constraint) stand for all types: the class reads only numMobilities==0 and haveGoodLoopJointAvailable"};
@@ -528,23 +598,30 @@ int main(int argc, char** argv) {
     // ================================================================ section 1: all input graphs
     const int NQ = 3, KQ = 3;
     std::vector<GItem> items;
-    auto addItems = [&](int n, int k, bool multiset, bool descending) {
+    auto addItems = [&](int n, int k, bool multiset, bool descending, int maxBase, int maxMassless) {
         int kinds = (n + 1) * n * NTYPES * 2;
         for (int attr = 0; attr < (int)ipow(4, n); ++attr) {
+            int nBase = 0, nMassless = 0; for (int b = 0; b < n; ++b) { if ((attr >> (2 * b)) & 2) nBase++; if ((attr >> (2 * b)) & 1) nMassless++; }
+            if (nBase > maxBase || nMassless > maxMassless) continue;
             if (k == 0) items.push_back({n, attr, 0, 0, false, false});
             else for (int f = 0; f < kinds; ++f) items.push_back({n, attr, k, f, multiset, descending});
         }
     };
-    for (int n = 0; n <= NQ; ++n) for (int k = 0; k <= KQ; ++k) { if (n == 0 && k > 0) continue; addItems(n, k, false, false); }
+    for (int n = 0; n <= NQ; ++n) for (int k = 0; k <= KQ; ++k) { if (n == 0 && k > 0) continue; addItems(n, k, false, false, 256, 4); }
     if (thorough) {
-        for (int k = 0; k <= 3; ++k) addItems(4, k, false, false);
-        for (int n = 1; n <= 3; ++n) addItems(n, 4, false, false);
-        addItems(4, 4, true, false);
-        addItems(4, 4, true, true);
+        for (int k = 0; k <= 2; ++k) addItems(4, k, false, false, 256, 4);   // 4 bodies, every ordered sequence of <= 2 joints
+        addItems(4, 3, true, false, 256, 4); addItems(4, 3, true, true, 256, 4);   // 4 bodies, 3-joint multisets in ascending and in descending kind order
+        for (int n = 1; n <= 2; ++n) addItems(n, 4, false, false, 256, 4);   // <= 2 bodies, every ordered sequence of 4 joints
+        addItems(3, 4, true, false, 256, 4); addItems(3, 4, true, true, 256, 4); // 3 bodies, 4-joint multisets in ascending and in descending kind order
+        addItems(4, 4, true, false, 1, 1);                                   // 4 bodies, 4-joint multisets (ascending); at most one massless and at most one must-be-base body
     }
     run.extraCoverage["graph_items"] = std::to_string(items.size());
 
-    run.parallel("graphs", (int64_t)items.size(), [&](int64_t idx) {
+    double tSec = run.elapsed();
+    std::string only; for (size_t i = 0; i + 1 < run.extra.size(); ++i) if (run.extra[i] == "--only") only = run.extra[i + 1];   // development aid: run one section
+    if (!only.empty()) run.exhaustive = false;
+    if (only.empty() || only == "graphs")
+    run.parallel("graphs", (int64_t)items.size(), [&](int64_t idx) { guarded(run, "graphs", 120, [&] {
         const GItem it = items[idx];
         const std::vector<Kind> kinds = jointKinds(it.n);
         const int K = (int)kinds.size();
@@ -555,29 +632,34 @@ int main(int argc, char** argv) {
         if (it.k > 0) sel[0] = it.first;
         Local L;
         const std::string tag = "n" + N2S(it.n) + "k" + N2S(it.k);
+        int64_t hc[12] = {0};   // 0 cases, 1..4 errors by kind, 5 accepted, 6.. features
         auto runCase = [&]() {
             for (int j = 0; j < it.k; ++j) { const Kind& kd = kinds[sel[j]]; m.joints[j] = {j, kd.type, kd.parent, kd.child, kd.loop}; }
             MGM g; buildFresh(g, m);
             GenResult r = generate(g);
             Check c;
-            if (r.threw) { judgeError(m, r, c); L.cnt[std::string("graphs:error:") + (r.kind == E_FREE ? "massless-free" : r.kind == E_DANGLE ? "massless-dangling" : r.kind == E_TERMINAL ? "terminal-massless" : "other")]++; }
+            if (r.threw) { judgeError(m, r, c); hc[r.kind]++; }
             else {
                 checkGraph(m, g, c);
-                L.cnt["graphs:accepted"]++;
-                if (c.nSlaves) L.cnt["graphs:with-slaves"]++;
-                if (c.nGroundSlaves) L.cnt["graphs:with-ground-slaves"]++;
-                if (c.nLoopC) L.cnt["graphs:with-loop-constraints"]++;
-                if (c.nAdded) L.cnt["graphs:with-added-base-joints"]++;
-                if (c.nReversed) L.cnt["graphs:with-reversed-mobilizers"]++;
+                hc[5]++;
+                if (c.nSlaves) hc[6]++;
+                if (c.nGroundSlaves) hc[7]++;
+                if (c.nLoopC) hc[8]++;
+                if (c.nAdded) hc[9]++;
+                if (c.nReversed) hc[10]++;
+                if (c.maxLevel > it.n) hc[11]++;
             }
-            L.cnt["graphs:cases:" + tag]++;
+            hc[0]++;
             L.transitions += c.n;
             run.evaluationDistinct(it.n > 0);
             run.outcome(outcomeHash(m, r, c));
             if (!c.fails.empty()) {
-                std::string ops = opsOfModel(m) + "GEN";
+                std::string ops;
                 for (auto& f : c.fails) {
                     L.cnt["oracle:" + f.first + ":FAIL"]++;
+                    int64_t& seen = run.acc.violCountByKey[f.first];
+                    if (seen >= (int64_t)run.maxViolsPerKey) { seen++; continue; }   // only the first few per key carry text
+                    if (ops.empty()) ops = opsOfModel(m) + "GEN";
                     run.violation(f.first, f.second + " | input: " + ops, run.replayHeader() + "scenario=graphs\nops=" + ops + "\n");
                 }
             }
@@ -585,7 +667,7 @@ int main(int argc, char** argv) {
         };
         // enumerate the remaining k-1 joints
         std::function<void(int)> rec = [&](int pos) {
-            if (pos >= it.k) { runCase(); return; }
+            if (pos >= it.k) { if (it.descending && sel[0] == sel[it.k - 1]) return; /* all-equal multisets belong to the ascending pass */ runCase(); return; }
             if (!it.multiset) { for (int s = 0; s < K; ++s) { sel[pos] = s; rec(pos + 1); } }
             else if (!it.descending) { for (int s = sel[pos - 1]; s < K; ++s) { sel[pos] = s; rec(pos + 1); } }
             else { for (int s = sel[pos - 1]; s >= 0; --s) { sel[pos] = s; rec(pos + 1); } }
@@ -596,15 +678,23 @@ int main(int argc, char** argv) {
             std::string res = r.threw ? "error: " + r.msg : (N2S((int)g.mobilizers.size()) + " mobilizers, " + N2S((int)g.constraints.size()) + " loop constraints, " + N2S((int)g.bodies.size() - 1 - it.n) + " slaves");
             run.sample(opsOfModel(m) + "GEN -> " + res);
         }
+        static const char* const HN[12] = {"", "graphs:error:massless-free", "graphs:error:massless-dangling", "graphs:error:terminal-massless", "graphs:error:other", "graphs:accepted", "graphs:with-slaves",
+                                           "graphs:with-ground-slaves", "graphs:with-loop-constraints", "graphs:with-added-base-joints", "graphs:with-reversed-mobilizers", "graphs:deeper-than-n"};
+        L.cnt["graphs:cases:" + tag] += hc[0];
+        for (int q = 1; q < 12; ++q) if (hc[q]) L.cnt[HN[q]] += hc[q];
         L.flush(run);
-    });
+    }); });
+    run.extraCoverage["wall_graphs_s"] = verif::jsonNum(run.elapsed() - tSec); tSec = run.elapsed();
 
     // ================================================================ section 2: single edits on every model (E2, merged view)
     struct EItem { int n, attr, k, first; };
     std::vector<EItem> eitems;
     {
-        const int KE = thorough ? 3 : 2;
-        for (int n = 1; n <= 3; ++n) for (int k = 0; k <= KE; ++k) {
+        // quick: n<=2,k<=2 and n=3,k<=1; thorough: n<=3,k<=2
+        for (int n = 1; n <= 3; ++n) for (int k = 0; k <= 3; ++k) {
+            const bool inQuick = (n <= 2 && k <= 2) || (n == 3 && k <= 1);
+            const bool inThorough = k <= 2;
+            if (!(thorough ? inThorough : inQuick)) continue;
             int kinds = (n + 1) * n * NTYPES * 2;
             for (int attr = 0; attr < (int)ipow(4, n); ++attr) {
                 if (k == 0) eitems.push_back({n, attr, 0, 0});
@@ -612,7 +702,8 @@ int main(int argc, char** argv) {
             }
         }
     }
-    run.parallel("edits", (int64_t)eitems.size(), [&](int64_t idx) {
+    if (only.empty() || only == "edits")
+    run.parallel("edits", (int64_t)eitems.size(), [&](int64_t idx) { guarded(run, "edits", 120, [&] {
         const EItem it = eitems[idx];
         const std::vector<Kind> kinds = jointKinds(it.n);
         const int K = (int)kinds.size();
@@ -632,6 +723,8 @@ int main(int argc, char** argv) {
             run.outcome(verif::hashMix(verif::hashStr(scen), st.lastOutcome));
             for (auto& f : fails) {
                 L.cnt["oracle:" + f.first + ":FAIL"]++;
+                int64_t& seen = run.acc.violCountByKey[f.first];
+                if (seen >= (int64_t)run.maxViolsPerKey) { seen++; continue; }
                 std::string t = opsText(ops);
                 run.violation(f.first, f.second + " | history: " + t, run.replayHeader() + "scenario=" + scen + "\nops=" + t + "\n");
             }
@@ -669,82 +762,80 @@ int main(int argc, char** argv) {
         };
         rec(it.k > 0 ? 1 : 0);
         L.flush(run);
-    });
+    }); });
 
     // ================================================================ section 3: all operation histories up to depth d (E2, unmerged view)
-    // Universe: bodies a,b (thorough: a,b,c); a new body takes the smallest unused letter, a new joint the smallest unused id
-    // (so names are reused after deletion).  Items = the first three operations; the rest is a DFS.
-    const int HD = thorough ? 6 : 5, HB = thorough ? 3 : 2;
-    struct Menu { std::vector<Op> ops; };
-    auto menuOf = [&](const Model& m, bool lastWasCycle) {
-        std::vector<Op> v;
-        if ((int)m.bodies.size() < HB) {
-            int letter = 1; while (m.pos(letter) >= 0) ++letter;
-            for (int a = 0; a < 3; ++a) { Op o; o.kind = 'B'; o.body = {letter, a == 1 ? 0 : 1, a == 2}; v.push_back(o); }
-        }
-        int id = 0; { bool used = true; while (used) { used = false; for (auto& j : m.joints) if (j.id == id) { used = true; ++id; break; } } }
-        if (m.joints.size() < 4)
+    // Universe: bodies a,b (second thorough pass: a,b,c); a new body takes the smallest unused letter, a new joint the smallest
+    // unused id (so names are reused after deletion).  Items = the first three operations; the rest is a DFS.
+    // Pass: quick depth 5 over a universe of 2 bodies; thorough depth 5 over 3 bodies (a superset).
+    run.extraCoverage["wall_edits_s"] = verif::jsonNum(run.elapsed() - tSec); tSec = run.elapsed();
+    struct HPass { int depth, bodies; bool onlyWithThird; };
+    std::vector<HPass> passes;
+    if (thorough) passes.push_back({5, 3, false}); else passes.push_back({5, 2, false});
+    auto expand = [](const std::vector<Op>& h) { std::vector<Op> e; for (auto& o : h) { if (o.kind == 'X') { Op g; g.kind = 'G'; e.push_back(g); Op c; c.kind = 'C'; e.push_back(c); } else e.push_back(o); } return e; };
+    for (size_t pn = 0; pn < passes.size(); ++pn) {
+        const HPass P = passes[pn];
+        const std::string sect = "histories" + std::string(pn ? "B" : "");
+        auto menuOf = [&](const Model& m, bool lastWasCycle) {
+            std::vector<Op> v;
+            if ((int)m.bodies.size() < P.bodies) {
+                int letter = 1; while (m.pos(letter) >= 0) ++letter;
+                for (int a = 0; a < 3; ++a) { Op o; o.kind = 'B'; o.body = {letter, a == 1 ? 0 : 1, a == 2}; v.push_back(o); }
+            }
+            int id = 0; { bool used = true; while (used) { used = false; for (auto& j : m.joints) if (j.id == id) { used = true; ++id; break; } } }
             for (int pi = 0; pi <= (int)m.bodies.size(); ++pi) for (int ci = 0; ci <= (int)m.bodies.size(); ++ci) if (pi != ci)
                 for (int t = 0; t < NTYPES; ++t) for (int l = 0; l < 2; ++l) {
                     Op o; o.kind = 'J'; o.joint = {id, t, pi == 0 ? 0 : m.bodies[pi - 1].letter, ci == 0 ? 0 : m.bodies[ci - 1].letter, l != 0}; v.push_back(o); }
-        for (auto& b : m.bodies) { Op o; o.kind = 'b'; o.letter = b.letter; v.push_back(o); }
-        for (auto& j : m.joints) { Op o; o.kind = 'j'; o.id = j.id; v.push_back(o); }
-        if (!lastWasCycle) { Op o; o.kind = 'X'; v.push_back(o); }   // X = generate + clear
-        return v;
-    };
-    auto expand = [](const std::vector<Op>& h) { std::vector<Op> e; for (auto& o : h) { if (o.kind == 'X') { Op g; g.kind = 'G'; e.push_back(g); Op c; c.kind = 'C'; e.push_back(c); } else e.push_back(o); } return e; };
-    // prefixes of length 3
-    std::vector<std::vector<Op>> prefixes;
-    {
-        std::function<void(std::vector<Op>&, Model&)> gen = [&](std::vector<Op>& h, Model& m) {
-            if (h.size() == 3) { prefixes.push_back(h); return; }
-            auto menu = menuOf(m, !h.empty() && h.back().kind == 'X');
-            for (auto& o : menu) { Model m2 = m; if (o.kind != 'X') applyToModel(m2, o); h.push_back(o); gen(h, m2); h.pop_back(); }
+            for (auto& b : m.bodies) { Op o; o.kind = 'b'; o.letter = b.letter; v.push_back(o); }
+            for (auto& j : m.joints) { Op o; o.kind = 'j'; o.id = j.id; v.push_back(o); }
+            if (!lastWasCycle) { Op o; o.kind = 'X'; v.push_back(o); }   // X = generate + clear
+            return v;
         };
-        std::vector<Op> h; Model m; gen(h, m);
-    }
-    run.extraCoverage["history_depth"] = std::to_string(HD);
-    run.parallel("histories", (int64_t)prefixes.size(), [&](int64_t idx) {
-        Local L;
-        std::vector<Op> h = prefixes[idx];
-        Model m; for (auto& o : h) if (o.kind != 'X') applyToModel(m, o);
-        std::function<void(Model&)> dfs = [&](Model& mm) {
-            // evaluate this history: replay on a fresh object, final generate
+        auto evaluate = [&](const std::vector<Op>& h, Local& L, const std::string& header) {
             std::vector<Op> ops = expand(h); { Op g; g.kind = 'G'; ops.push_back(g); }
             std::vector<std::pair<std::string, std::string>> fails; HistStats st;
             runHistory(ops, fails, st, run.verbose, "ops", /*structural*/true);
-            L.transitions += st.checks; L.cnt["histories:depth" + N2S((int)h.size())]++;
-            L.cnt["histories:generates"] += st.gens; L.cnt["histories:generates-that-threw"] += st.gensThrew;
+            L.transitions += st.checks; L.cnt[sect + ":depth" + N2S((int)h.size())]++;
+            L.cnt[sect + ":generates"] += st.gens; L.cnt[sect + ":generates-that-threw"] += st.gensThrew;
             run.evaluationDistinct(true);
             run.outcome(st.lastOutcome);
             for (auto& f : fails) {
                 L.cnt["oracle:" + f.first + ":FAIL"]++;
+                int64_t& seen = run.acc.violCountByKey[f.first];
+                if (seen >= (int64_t)run.maxViolsPerKey) { seen++; continue; }
                 std::string t = opsText(ops);
-                run.violation(f.first, f.second + " | history: " + t, run.replayHeader() + "scenario=ops\nops=" + t + "\n");
+                run.violation(f.first, f.second + " | history: " + t, header + "scenario=ops\nops=" + t + "\n");
             }
-            if ((int)h.size() >= HD) return;
-            auto menu = menuOf(mm, !h.empty() && h.back().kind == 'X');
-            for (auto& o : menu) { Model m2 = mm; if (o.kind != 'X') applyToModel(m2, o); h.push_back(o); dfs(m2); h.pop_back(); }
         };
-        // the shorter prefixes (depth 0..2) are evaluated by the item that starts with the first menu entry at each level
-        dfs(m);
-        L.flush(run);
-    });
-    // histories shorter than 3 operations
-    {
-        Local L; int64_t nShort = 0;
-        std::function<void(std::vector<Op>&, Model&)> gen = [&](std::vector<Op>& h, Model& m) {
-            if (h.size() >= 3) return;
-            std::vector<Op> ops = expand(h); { Op g; g.kind = 'G'; ops.push_back(g); }
-            std::vector<std::pair<std::string, std::string>> fails; HistStats st;
-            runHistory(ops, fails, st, false, "ops", true);
-            L.transitions += st.checks; run.evaluationDistinct(true); nShort++;
-            for (auto& f : fails) run.violation(f.first, f.second + " | history: " + opsText(ops), "section=histories\nitem=0\nscenario=ops\nops=" + opsText(ops) + "\n");
-            auto menu = menuOf(m, !h.empty() && h.back().kind == 'X');
-            for (auto& o : menu) { Model m2 = m; if (o.kind != 'X') applyToModel(m2, o); h.push_back(o); gen(h, m2); h.pop_back(); }
-        };
-        std::vector<Op> h; Model m; gen(h, m);
-        L.cnt["histories:shorter-than-3"] = nShort; L.flush(run);
+        auto hadThird = [&](const std::vector<Op>& h) { int nb = 0, mx = 0; for (auto& o : h) { if (o.kind == 'B') nb++; else if (o.kind == 'b') nb--; if (nb > mx) mx = nb; } return mx >= 3; };
+        // prefixes of length 3 become items; shorter histories are evaluated here in the parent
+        std::vector<std::vector<Op>> prefixes;
+        {
+            Local L;
+            std::function<void(std::vector<Op>&, Model&)> gen = [&](std::vector<Op>& h, Model& m) {
+                if (h.size() == 3) { prefixes.push_back(h); return; }
+                if ((only.empty() || only == "histories") && !run.replaying() && (!P.onlyWithThird || hadThird(h))) guarded(run, sect, 60, [&] { evaluate(h, L, "section=" + sect + "\nitem=0\n"); });
+                auto menu = menuOf(m, !h.empty() && h.back().kind == 'X');
+                for (auto& o : menu) { Model m2 = m; if (o.kind != 'X') applyToModel(m2, o); h.push_back(o); gen(h, m2); h.pop_back(); }
+            };
+            std::vector<Op> h; Model m; gen(h, m);
+            L.flush(run);
+        }
+        if (only.empty() || only == "histories")
+        run.parallel(sect, (int64_t)prefixes.size(), [&](int64_t idx) { guarded(run, sect, 300, [&] {
+            Local L;
+            std::vector<Op> h = prefixes[idx];
+            Model m; for (auto& o : h) if (o.kind != 'X') applyToModel(m, o);
+            std::function<void(Model&)> dfs = [&](Model& mm) {
+                if (!P.onlyWithThird || hadThird(h)) evaluate(h, L, run.replayHeader());   // replay on a fresh object, final generate
+                if ((int)h.size() >= P.depth) return;
+                auto menu = menuOf(mm, !h.empty() && h.back().kind == 'X');
+                for (auto& o : menu) { Model m2 = mm; if (o.kind != 'X') applyToModel(m2, o); h.push_back(o); dfs(m2); h.pop_back(); }
+            };
+            dfs(m);
+            L.flush(run);
+        }); });
     }
+    run.extraCoverage["wall_histories_s"] = verif::jsonNum(run.elapsed() - tSec);
     return run.finish();
 }
